@@ -197,6 +197,15 @@ Proof.
 Qed.
 End H.
 
+(* ---------- C12 with rejected invocations in between ---------- *)
+Lemma invocations_completed M vs : invocations M false vs = history M true (completed vs).
+Proof.
+  unfold invocations, history.
+  assert (G : forall f, fold_left (do_invocation M false) vs f = fold_left (do_run M true) (completed vs) f).
+  { induction vs as [|v vs IH]; intros f; simpl; [reflexivity|]. destruct v as [r|]; simpl; apply IH. }
+  apply G.
+Qed.
+
 (* ---------- C13: a run killed after any strict prefix of its effects ---------- *)
 Definition healthy (M : nat) (f : fs) : Prop :=
   match pointer f with
@@ -237,6 +246,57 @@ Proof.
     assert (Hne : id <> i).
     { unfold next_id in Hn. rewrite Ep in Hn. inversion Hn; subst i. destruct (Nat.leb_spec M id); lia. }
     exists ls, r0. rewrite (Ho id Hne). exact Hs.
+Qed.
+
+(* ---------- C13 when max_retained_runs changes between runs ---------- *)
+(* what every completed run leaves behind, whatever limit it ran under: the pointer names a slot that holds a result *)
+Definition recorded (f : fs) : Prop :=
+  match pointer f with
+  | PAbsent => True
+  | PEmpty => False
+  | PVal id => exists ls r, slots f id = Some (ls, Some r)
+  end.
+
+Lemma healthy_recorded M f : healthy M f -> recorded f.
+Proof. unfold healthy, recorded. destruct (pointer f); auto. intros [_ H]; exact H. Qed.
+
+Lemma do_run_recorded M f r : recorded f -> recorded (do_run M true f r).
+Proof.
+  intros Hr. unfold do_run. destruct (next_id M f) as [i|] eqn:En; [|exact Hr].
+  destruct (run_effect true i r f) as (Hp & _ & Hs).
+  unfold recorded. rewrite Hp, Hs. eauto.
+Qed.
+
+Lemma history_var_recorded (rs : list (nat * run_rec)) : recorded (history_var true rs).
+Proof.
+  unfold history_var.
+  assert (G : forall f, recorded f -> recorded (fold_left (fun f mr => do_run (fst mr) true f (snd mr)) rs f)).
+  { induction rs as [|[m r] rs IH]; intros f Hf; simpl; [exact Hf|]. apply IH. apply do_run_recorded. exact Hf. }
+  apply G. exact I.
+Qed.
+
+Theorem C13_crash_safe_any_limit (M : nat) (f : fs) i (r : run_rec) k :
+  2 <= M -> recorded f -> next_id M f = Some i -> k < length (run_ops true i r) ->
+  let f' := crash true f i r k in
+  show f' = show f /\ recorded f' /\ next_id M f' = Some i /\
+  (forall j, j <> i -> slots f' j = slots f j).
+Proof.
+  intros HM Hh Hn Hk. cbv zeta. unfold crash.
+  assert (Esplit : run_ops true i r = (fill_ops i r ++ [WriteTmp i]) ++ [Rename]).
+  { rewrite run_ops_split. rewrite <- app_assoc. reflexivity. }
+  rewrite Esplit in Hk |- *. rewrite firstn_strict_prefix by exact Hk.
+  assert (Hsafe : Forall (slot_op i) (firstn k (fill_ops i r ++ [WriteTmp i]))).
+  { apply Forall_firstn. apply Forall_app. split; [apply fill_ops_safe|repeat constructor]. }
+  destruct (slot_ops_fold i _ f Hsafe) as [Hp Ho].
+  set (f' := fold_left apply (firstn k (fill_ops i r ++ [WriteTmp i])) f) in *.
+  assert (Hni : next_id M f' = Some i) by (unfold next_id in *; rewrite Hp; exact Hn).
+  assert (Hne : forall id, pointer f = PVal id -> id <> i).
+  { intros id Ep. unfold next_id in Hn. rewrite Ep in Hn. inversion Hn; subst i. destruct (Nat.leb_spec M id); lia. }
+  split; [|split; [|split; [exact Hni|exact Ho]]].
+  - unfold show. rewrite Hp. destruct (pointer f) as [| |id] eqn:Ep; auto.
+    unfold show_slot. rewrite (Ho id (Hne id eq_refl)). reflexivity.
+  - unfold recorded in *. rewrite Hp. destruct (pointer f) as [| |id] eqn:Ep; auto.
+    destruct Hh as (ls & r0 & Hs). exists ls, r0. rewrite (Ho id (Hne id eq_refl)). exact Hs.
 Qed.
 
 (* as found: the crash between truncate and write breaks `show` and blocks every later run *)
